@@ -48,7 +48,7 @@ QUICK_TABLE = [
     ('fourati', {'gain': 1.0, 'tail_rate': 3.0}, 300, None),      # safety only, see DESIGN.md C13
     ('roleq', {'frame': 'NED'}, 300, 1e-3),
     ('roleq', {'frame': 'ENU'}, 300, 1e-3),
-    ('fkf', {}, 300, 0.05),
+    ('fkf', {}, 1500, 0.05),
     ('complementary_imu', {'gain': 0.9}, 200, 1e-3),
     ('complementary_marg', {'gain': 0.9}, 200, 1e-3),
 ]
